@@ -291,6 +291,11 @@ pub fn run(ctx: &Ctx, profile: Profile) -> i32 {
         Profile::C01 | Profile::C08 => ctx.runs(8, 300),
         _ => 0,
     };
+    // thread-history sessions (warm-up with related block sizes, fresh-thread re-check): C18
+    let n_hist: u64 = match profile {
+        Profile::C18 => ctx.runs(1500, 150_000),
+        _ => 0,
+    };
     let (acc, fail) = par_fold(
         n,
         ctx.workers,
@@ -311,6 +316,9 @@ pub fn run(ctx: &Ctx, profile: Profile) -> i32 {
             } else if run < n_giant + 2 * n_xxl + n_mega {
                 acc.probes.inc("shape_hoarded_flood");
                 crate::sim::simulate_mega(run_seed(seed, stream + 4000, run), profile, oracles, false)
+            } else if n_hist > 0 && run < n_hist {
+                acc.probes.inc("shape_thread_history_session");
+                crate::sim::simulate_history(run_seed(seed, stream + 5000, run), profile, oracles, false)
             } else {
                 simulate(run_seed(seed, stream, run), profile, oracles, false, max_k)
             };
@@ -405,7 +413,7 @@ pub fn run(ctx: &Ctx, profile: Profile) -> i32 {
     let probe_keys: Vec<&'static str> = match profile {
         Profile::C01 => vec!["probe_gf2_only_attempt_eligible", "probe_block_decoded_from_repair_only", "probe_decoded_at_exactly_k", "probe_completed_by_solving", "probe_rank_deficient_at_ge_k", "probe_esi_above_2_23", "probe_rollback_across_completion"],
         Profile::C08 => vec!["probe_gf2_only_attempt_eligible", "probe_dup_source_at_k_minus_1", "probe_dup_as_kth_packet", "probe_batch_crosses_k", "probe_rollback_across_completion", "probe_clone_followed", "set_determinism_checks", "redeliver_after_done"],
-        Profile::C18 => vec!["probe_esi_seen_through_two_routes", "probe_window_ends_at_last_esi", "probe_bulk_window", "probe_empty_window", "windows", "bursts", "window_overlap", "replica_mix"],
+        Profile::C18 => vec!["shape_thread_history_session", "fresh_thread_rechecks", "probe_esi_seen_through_two_routes", "probe_window_ends_at_last_esi", "probe_bulk_window", "probe_empty_window", "windows", "bursts", "window_overlap", "replica_mix"],
         Profile::C07 => vec![],
     };
     let mut probes = Counters::default();
